@@ -724,6 +724,19 @@ func (vr *voterecords) vote(
 		return false, false, nil
 	}
 
+	suf, found, err := vr.getSuffrage()
+
+	switch {
+	case err != nil:
+		return false, false, errors.WithMessage(err, "vote")
+	case found && suf != nil:
+		// NOTE same check as countFromBallots() does for the ballots, which
+		// were voted before suffrage is known.
+		if err := isValidBallotWithSuffrage(signfact, expels, suf); err != nil {
+			return false, false, nil
+		}
+	}
+
 	if vp != nil {
 		vr.vps[node.String()] = vp
 	}
@@ -739,9 +752,7 @@ func (vr *voterecords) vote(
 		}
 	}
 
-	switch _, found, err := vr.getSuffrage(); {
-	case err != nil:
-		return false, false, errors.WithMessage(err, "vote")
+	switch {
 	case !found:
 		vr.ballots[node.String()] = signfact
 
@@ -898,6 +909,14 @@ func (vr *voterecords) isValidBallot(
 	signfact base.BallotSignFact,
 	suf base.Suffrage,
 ) error {
+	return isValidBallotWithSuffrage(signfact, vr.expels[signfact.Node().String()], suf)
+}
+
+func isValidBallotWithSuffrage(
+	signfact base.BallotSignFact,
+	expels []base.SuffrageExpelOperation,
+	suf base.Suffrage,
+) error {
 	e := util.ErrInvalid.Errorf("invalid ballot with suffrage")
 
 	fact := signfact.Fact().(base.BallotFact) //nolint:forcetypeassert //...
@@ -906,11 +925,9 @@ func (vr *voterecords) isValidBallot(
 		return e.Errorf("node not in suffrage")
 	}
 
-	if expels := vr.expels[signfact.Node().String()]; len(expels) > 0 {
-		for i := range expels {
-			if err := isaac.IsValidExpelWithSuffrage(fact.Point().Height(), expels[i], suf); err != nil {
-				return e.Wrap(err)
-			}
+	for i := range expels {
+		if err := isaac.IsValidExpelWithSuffrage(fact.Point().Height(), expels[i], suf); err != nil {
+			return e.Wrap(err)
 		}
 	}
 
